@@ -7,11 +7,13 @@ import HotXL.Driver.Emitter
 import HotXL.Driver.Eval
 import HotXL.Driver.Math
 import HotXL.Driver.Interleave
+import HotXL.Driver.Session
 open HotXL
 
 def handlers : List (String → List Sexp → Option String) :=
   [HotXL.Driver.Cell.handle, HotXL.Driver.Emitter.handle, HotXL.Driver.Eval.handle,
-   HotXL.Driver.Math.handle, HotXL.Driver.Interleave.handle]
+   HotXL.Driver.Math.handle, HotXL.Driver.Interleave.handle,
+   HotXL.Driver.Session.handle]
 
 def answer (line : String) : String :=
   match Sexp.parseLine line with
